@@ -196,9 +196,19 @@ def proof_stage(prop_module, extra_modules=(), namespace_hint=None):
     thms = []
     if ppath and os.path.exists(ppath):
         src = strip_lean_comments(open(ppath).read())
-        ns = re.findall(r"^namespace\s+([\w\.]+)", src, re.M)
-        prefix = (ns[0] + ".") if ns else ""
-        thms = [prefix + n for (_, k, n) in declarations(ppath) if k == "theorem" and n]
+        # fully qualified names: track `namespace X` / `end X` by position
+        marks = [(m.start(), "ns", m.group(1)) for m in re.finditer(r"^namespace\s+([\w\.]+)", src, re.M)]
+        marks += [(m.start(), "end", m.group(1)) for m in re.finditer(r"^end\s+([\w\.]+)", src, re.M)]
+        marks += [(m.start(), "decl", (m.group(1), m.group(2))) for m in DECL_RE.finditer(src)]
+        stack = []
+        for _, kind, val in sorted(marks, key=lambda x: x[0]):
+            if kind == "ns":
+                stack.append(val)
+            elif kind == "end":
+                if stack and stack[-1] == val:
+                    stack.pop()
+            elif val[0] == "theorem" and val[1]:
+                thms.append(".".join(stack + [val[1]]))
     info["property_theorems"] = [t.split(".")[-1] for t in thms]
     info["axioms"] = {}
     if rc == 0:
